@@ -351,6 +351,10 @@ def getattr_value(interp, st, base, attr, node=None):
         if f.classmethod_:
             return I.BoundMethod(cref, f)
         return I.BoundMethod(base, f, node.value if node is not None else None)
+    if isinstance(base, I.Native) and base.name == "dict" and attr == "fromkeys":
+        from .npmodel4 import dict_fromkeys
+
+        return I.Native("dict.fromkeys", dict_fromkeys)
     if isinstance(base, I.ObjMethod):
         base = base.value
     if I.is_obj(base):
